@@ -70,6 +70,11 @@ impl InnerTimer {
         // a running timer reports the time accumulated so
         // far plus the interval that is still in progress
         match self.start {
+            #[cfg(feature = "verif")]
+            Some(instant) if !self.suspended => {
+                self.elapsed + instant.elapsed() + crate::verif_hooks::vclock_since(self.vstart)
+            }
+            #[cfg(not(feature = "verif"))]
             Some(instant) if !self.suspended => self.elapsed + instant.elapsed(),
             _ => self.elapsed,
         }
